@@ -387,6 +387,12 @@ def ob_re1_no_guards(ctx, tier):
             if pe.guards:
                 failing.append("loop_borrow_alive_during_process_events:" + ",".join(sorted(g[1] for g in pe.guards)))
                 cex = cex or fmt_path(p, pe.idx + 1)
+        # ... nor when the loop lets go of a dispatcher (the last reference may be this one: the source's destructor runs)
+        # (the slot's own Option<Rc<..>> overwritten by PostAction::Remove is not the last reference: `disp` is a clone of it)
+        for d_ in [e for e in p.trace if e.kind == "drop" and "EventDispatcher" in e.callee and e.callee.startswith("rc::Rc<")]:
+            if d_.guards:
+                failing.append("loop_borrow_alive_while_a_dispatcher_is_dropped")
+                cex = cex or fmt_path(p, d_.idx + 1)
     return result(not failing, witness, failing, cex, "", paths, cfg)
 
 
@@ -575,6 +581,14 @@ def ob_handle_remove(ctx, tier):
                 c.fail("remove_unregisters_another_dispatcher", p)
             if "a2" not in repr(un[0].args[3]):
                 c.fail("remove_unregister_not_with_callers_token", p)
+            # the source list is NOT borrowed while foreign code runs: neither while the source is unregistered nor when the
+            # loop's reference to it is dropped (its destructor may come back to the loop: a future dropped with its
+            # executor may own an Async adapter, whose Drop frees its own slot)
+            if any("SourceList" in str(g) for g in un[0].guards):
+                c.fail("source_list_borrowed_while_the_removed_source_is_unregistered", p)
+            for d_ in [e for e in p.trace if e.kind == "drop" and "EventDispatcher" in e.callee and e.idx > un[0].idx]:
+                if any("SourceList" in str(g) for g in d_.guards):
+                    c.fail("source_list_borrowed_while_the_removed_source_is_dropped", p)
             # a removed source is never left in the lifecycle set (whose entries must resolve to occupied slots: dispatch
             # treats anything else as unreachable): when its unregistration FAILED -- the dispatcher drops the entry only
             # on success -- the entry is dropped here
